@@ -1622,6 +1622,8 @@ def builtin(I, name, args, kwargs, node, env):
                 return Unknown("zip of generated lists whose lengths cannot be compared")
         elems = [I_.subst_value(g.elem, {g.ivar: alg.atom_expr(short.ivar)}) if g.ivar is not short.ivar else g.elem for g in gs]
         return Tup([GenList(Tup(elems), short.ivar, short.rng)], "list")
+    if name == "zip" and any(isinstance(x, Opaque) and "unpack" in x.attrs for x in args):
+        args = [Tup(list(x.attrs["unpack"]), "list") if isinstance(x, Opaque) and "unpack" in x.attrs else x for x in args]
     if name == "zip":
         if all(isinstance(x, Tup) and not any(isinstance(i, GenList) for i in x.items) for x in args):
             return Tup([Tup(list(t)) for t in zip(*[x.items for x in args])], "list")
